@@ -561,3 +561,69 @@ def lemma_repr_digits_concrete(p, m):
                 if tried > 400000:
                     break
     return None, 'UNCONFIRMED: digit-count inequality fails for prec %r but no round-trip failure found among %d values of small precisions' % (m.get('prec') if m else None, tried)
+
+
+# ------------------------------------------------------------------------------ the tokeniser str_to_man_exp on symbolic literals
+def _lit_sstr(ob, shape):
+    """shape: string over {D (symbolic digit), N (symbolic nonzero digit), concrete characters}"""
+    from pysym.values import SStr
+    chars = []
+    for i, c in enumerate(shape):
+        if c == 'D':
+            chars.append(ob.int('d%d' % i, 0, 9))
+        elif c == 'N':
+            chars.append(ob.int('d%d' % i, 1, 9))
+        else:
+            chars.append(c)
+    return SStr(chars)
+
+
+def tokenise(p):
+    """str_to_man_exp(literal) -> (man, exp) with man * 10**exp == the value the literal denotes, for every digit assignment of a
+    literal SHAPE (positions of '.', 'e', exponent sign concrete; every digit symbolic): the real code (lower/rstrip('l'),
+    float() validation, split('e'), split('.'), rstrip('0'), len, int) runs on a symbolic decimal string."""
+    L = libmpf()
+    shape = p['shape']
+    ob = Ob(wbump(p, 4 * len(shape) + 80), timeout_s=p.get('_t', 60), mul_precise_bits=4096)
+    lit = _lit_sstr(ob, shape)
+    outs = ob.run(L.str_to_man_exp, [lit])
+    # independent reading of the literal: V * 10**(E - nfrac)
+    body, _, ex = shape.partition('e')
+    ip, _, fp = body.partition('.')
+    digs = [c for c in lit.chars[:len(body)] if not (isinstance(c, str) and c in '.+-')]
+    V = B(0)
+    for c in digs:
+        V = V * B(10) + (zt(c) if not isinstance(c, str) else B(int(c)))
+    if shape[0] == '-':
+        V = -V
+    nfrac = len(fp)
+    Ev = B(0)
+    if ex:
+        esign = -1 if ex[0] == '-' else 1
+        echars = lit.chars[len(body) + 1 + (1 if ex[0] in '+-' else 0):]
+        for c in echars:
+            Ev = Ev * B(10) + (zt(c) if not isinstance(c, str) else B(int(c)))
+        if esign < 0:
+            Ev = -Ev
+    S = Ev - B(nfrac)
+
+    def good(val, st):
+        if not (isinstance(val, tuple) and len(val) == 2):
+            return False
+        x, e = val
+        diff = zt(e) - S                          # number of trailing fractional zeros the code stripped
+        cases = [z3.And(diff == B(k), zt(x) * B(10 ** k) == V) for k in range(0, nfrac + 1)]
+        return z3.Or(cases)
+    return finish(ob, ob.prove(outs, good))
+
+
+def tokenise_concrete(p, m):
+    L = libmpf()
+    shape = p['shape']
+    lit = ''.join(str(m.get('d%d' % i, 1 if c == 'N' else 0)) if c in 'DN' else c for i, c in enumerate(shape))
+    try:
+        x, e = L.str_to_man_exp(lit)
+    except Exception as ex:
+        return False, 'str_to_man_exp(%r) raised %r' % (lit, ex)
+    ok = Fraction(x) * Fraction(10) ** e == Fraction(lit)
+    return ok, 'str_to_man_exp(%r) = (%d, %d), which denotes %s, the literal denotes %s' % (lit, x, e, Fraction(x) * Fraction(10) ** e, Fraction(lit))
